@@ -40,6 +40,9 @@ CONSTANTS Keys,        \* keys of the shared namespace
                        \* under the node lock; FALSE: reads n.value, calls Release, then clears it, with no lock
           RecheckClosed, \* TRUE as coded (since fix 9182bd2): on a closed cache unRefExternal calls the finaliser
                        \* only if ref is still 0; FALSE: without re-checking
+          ClearDelf,   \* TRUE as coded (since fix 319ed8d): mBucket.delete takes the delete funcs away from the node it removes;
+                       \* FALSE: it runs them and leaves them on the node object, where a Release that is still between
+                       \* its decrement and its lock (and refers to that object, not to the key) finds them again
           CloseExcl    \* FALSE: Close may overlap anything but the read-locked calls (the property's quantifier).
                        \* TRUE: environment assumption under which even the code before the two fixes satisfies
                        \* C17: Close is not called while a Handle.Release is between its decrement and its delete
@@ -142,7 +145,7 @@ OkQuiesce(capacity) ==
 (***************************************************************************)
 NoNode == [ex |-> FALSE, ref |-> 0, val |-> 0, ban |-> FALSE, delf |-> {}]
 Idle == [pc |-> "idle", k |-> NoKey, dk |-> NoKey, h |-> FALSE, hk |-> NoKey, pend |-> <<>>, ret |-> "idle",
-         m |-> "set", cb |-> {}, ks |-> {}, f |-> FALSE, fv |-> 0]
+         m |-> "set", cb |-> {}, ks |-> {}, f |-> FALSE, fv |-> 0, st |-> FALSE]
 
 Empty == [x \in {} |-> 0]
 Init == /\ cur = [k \in Keys |-> 0] /\ vals = Empty /\ hnd = Empty /\ dels = Empty /\ mode = "open" /\ bad = {}
@@ -156,7 +159,7 @@ Spilled(s, c) == IF Len(s) <= c THEN <<>> ELSE SubSeq(s, c + 1, Len(s))
 
 SetTh(t, r) == th' = [th EXCEPT ![t] = r]
 Back(t) == [th[t] EXCEPT !.pc = "idle", !.k = NoKey, !.dk = NoKey, !.pend = <<>>, !.ret = "idle", !.m = "set",
-                         !.cb = {}, !.ks = {}, !.f = FALSE, !.fv = 0]
+                         !.cb = {}, !.ks = {}, !.f = FALSE, !.fv = 0, !.st = FALSE]
 Goto(t, pc) == IF pc = "idle" THEN Back(t) ELSE [th[t] EXCEPT !.pc = pc]
 Note(ok, tag) == bad' = IF ok THEN bad ELSE bad \cup {tag}
 \* Cache.mu is read-held in these states (Close cannot start); "idle", and a client Release between
@@ -188,11 +191,22 @@ BucketDelete(t) ==
               THEN /\ node' = [node EXCEPT ![k] = NoNode]
                    /\ IF n.val # 0 THEN DoFinalize(n.val) ELSE UNCHANGED <<cur, vals>>
                    /\ Note(n.val # 0 => OkFinalize(n.val), "finalize")
-                   \* the callbacks run after the bucket lock is dropped
-                   /\ SetTh(t, [th[t] EXCEPT !.pc = IF th[t].pc = "del" THEN "cb" ELSE "xcb", !.cb = n.delf])
+                   \* the callbacks run after the bucket lock is dropped; a client Release that decremented this very node
+                   \* object to zero earlier and still waits for the cache lock now refers to a removed object
+                   /\ th' = [u \in Threads |->
+                               IF u = t THEN [th[t] EXCEPT !.pc = IF th[t].pc = "del" THEN "cb" ELSE "xcb", !.cb = n.delf]
+                               ELSE IF th[u].pc = "xdel" /\ th[u].dk = k
+                                      THEN [th[u] EXCEPT !.st = TRUE, !.cb = IF ClearDelf THEN {} ELSE n.delf]
+                               ELSE th[u]]
                    /\ UNCHANGED <<hnd, dels, mode, lruq, cap, nvid, nd>>
               ELSE /\ SetTh(t, Goto(t, th[t].ret))
                    /\ UNCHANGED <<cur, vals, hnd, dels, mode, bad, node, lruq, cap, nvid, nd>>
+       ELSE IF th[t].st
+              THEN \* closed cache, removed node object: its counter is zero, its value is gone; callFinalizer runs what is left on it
+                   /\ DoDelfuncs(th[t].cb)
+                   /\ Note(\A d \in th[t].cb : OkDelfunc(d), "delfunc")
+                   /\ SetTh(t, Goto(t, th[t].ret))
+                   /\ UNCHANGED <<cur, vals, hnd, mode, node, lruq, cap, nvid, nd>>
        ELSE IF RecheckClosed /\ n.ref # 0
               THEN /\ SetTh(t, Goto(t, th[t].ret))
                    /\ UNCHANGED <<cur, vals, hnd, dels, mode, bad, node, lruq, cap, nvid, nd>>
